@@ -33,6 +33,7 @@ type Config struct {
 	RefuseJoin   map[int]bool // the application refuses PEER_ADD of these key indexes
 	Liars        map[int]func(tick int) int64
 	WrapStore    func(idx int, s hg.Store) hg.Store
+	Maintenance  map[int]bool // nodes (re)started in maintenance mode
 	Solo         bool // only node 0 is started (DAG engine: one hashgraph fed by the harness)
 	BootstrapDir string // node 0 opens this existing Badger directory with Bootstrap=true
 }
@@ -205,6 +206,7 @@ func (c *Cluster) startNode(i int, currentPeers []*peers.Peer, bootstrap bool, f
 	conf.EnableFastSync = fastSync
 	conf.Bootstrap = bootstrap
 	conf.JoinTimeout = 1
+	conf.MaintenanceMode = c.Cfg.Maintenance[i]
 
 	sn := &SimNode{Idx: i, Key: Key(i), Pub: PubHex(i), Peer: mkPeer(i), Conf: conf,
 		App: NewApp(), FFStep: -1, Has: map[string]bool{}, known: map[uint32]int{}}
@@ -227,6 +229,7 @@ func (c *Cluster) startNode(i int, currentPeers []*peers.Peer, bootstrap bool, f
 		if sn.Dir == "" {
 			sn.Dir = filepath.Join(c.Cfg.Dir, fmt.Sprintf("badger-%d", i))
 			os.RemoveAll(sn.Dir)
+			os.MkdirAll(c.Cfg.Dir, 0o755)
 		}
 		if old := c.Nodes[i]; old != nil {
 			sn.KeepDir = old.KeepDir
@@ -247,15 +250,27 @@ func (c *Cluster) startNode(i int, currentPeers []*peers.Peer, bootstrap bool, f
 	sn.Trans = &Transport{c: c, owner: i}
 	prox := inmem.NewInmemProxy(sn.App, conf.Logger())
 	c.active = i
-	sn.Node = node.NewNode(conf, node.NewValidator(sn.Key, sn.Peer.Moniker),
-		peers.NewPeerSet(clonePeers(currentPeers)), peers.NewPeerSet(clonePeers(c.Genesis)),
-		store, sn.Trans, prox)
-	sn.Node.VStopSignals()
 	c.Nodes[i] = sn
 	c.ByAddr[addr(i)] = sn
-	if err := sn.Node.Init(); err != nil {
-		c.Errors = append(c.Errors, fmt.Sprintf("init node %d: %v", i, err))
-	}
+	func() {
+		defer func() {
+			if r := recover(); r != nil {
+				if cs, ok := r.(CrashSentinel); ok && cs.Node == i {
+					// the node "died" while it was starting (e.g. before writing the genesis peer-set)
+					c.crashNode(i)
+					return
+				}
+				panic(r)
+			}
+		}()
+		sn.Node = node.NewNode(conf, node.NewValidator(sn.Key, sn.Peer.Moniker),
+			peers.NewPeerSet(clonePeers(currentPeers)), peers.NewPeerSet(clonePeers(c.Genesis)),
+			store, sn.Trans, prox)
+		sn.Node.VStopSignals()
+		if err := sn.Node.Init(); err != nil {
+			c.Errors = append(c.Errors, fmt.Sprintf("init node %d: %v", i, err))
+		}
+	}()
 	c.active = -1
 	return sn
 }
@@ -682,7 +697,10 @@ func (c *Cluster) Restart(i int, bootstrap, fastSync bool) error {
 		if old == nil {
 			return fmt.Errorf("no such node")
 		}
-		cur := old.Node.GetPeers()
+		cur := c.Genesis
+		if old.Node != nil {
+			cur = old.Node.GetPeers()
+		}
 		if !old.Down {
 			func() {
 				defer func() { recover() }()
